@@ -11,7 +11,7 @@ import (
 
 func init() {
 	register(&Prop{
-		ID: "C13",
+		ID:   "C13",
 		Rule: "per document (G-article page with tables, embeds, figures and an appended hostile or conventional pager, so that visibility/extraction/pagination/timing logging and both finders have work) the full grid LogFlags 0..31 (all five bits incl. the unused bit 0) x {PrevNext, PageNumber} x SkipPagination x {URL nil, URL given} = 256 calls on the same parsed tree. Oracle: within one URL value all results are equal in Title, Text, HTML, WordCount, ContentImages, MarkupInfo, URL; PaginationInfo is equal across log flags for the same (algorithm, skip) and empty when skipped or when no URL is given; Result.URL = OriginalURL.String() or empty. Non-trivial = a document with non-empty output; distinct = distinct (block kinds, pagination outcome shape).",
 		Assumptions: []string{
 			"URL nil vs non-nil legitimately changes link absolutisation, so contents are compared within one URL value only",
@@ -129,5 +129,7 @@ func runC13(c *Ctx, idx int) {
 		c.Inc("docs_with_pagination")
 	}
 	c.Sig(kindSig(g.L.Kinds) + "|" + pagShape)
-	c.Sample(func() any { return map[string]any{"case": idx, "page_url": pageStr, "html": trunc(src, 1200), "pagination_shape": pagShape} })
+	c.Sample(func() any {
+		return map[string]any{"case": idx, "page_url": pageStr, "html": trunc(src, 1200), "pagination_shape": pagShape}
+	})
 }
